@@ -47,10 +47,11 @@ class KaniUnit:
     """All harnesses of /verif/kani/<crate> whose name starts with `prefix`."""
 
     def __init__(self, crate, prefix, functions, bounds, assumptions=None, stubs=None,
-                 quick_timeout=600, thorough_timeout=3600, jobs=14):
+                 quick_timeout=600, thorough_timeout=3600, jobs=14, contains=None):
         self.crate = crate
         self.prefix = prefix
-        self.name = "kani:%s:%s" % (crate, prefix)
+        self.contains = contains  # optional substring every selected harness name must contain
+        self.name = "kani:%s:%s%s" % (crate, prefix, contains or "")
         self.functions = functions
         self.bounds = bounds
         self.assumptions = assumptions or []
@@ -64,6 +65,8 @@ class KaniUnit:
         names = K.list_harnesses(crate_dir)
         out = []
         for n in names:
+            if self.contains and self.contains not in n:
+                continue
             if n.startswith(self.prefix + "q_") or (tier == "thorough" and n.startswith(self.prefix + "t_")):
                 out.append(n)
         return out
@@ -78,7 +81,7 @@ class KaniUnit:
         if only:
             expected = [e for e in expected if only in e]
         filters = [self.prefix + "q_"] + ([self.prefix + "t_"] if tier == "thorough" else [])
-        if only:
+        if only or self.contains:
             filters = expected
         if not expected:
             if not only:
